@@ -1,4 +1,5 @@
 import dis
+import re
 import yaml
 from typing import (
     Any,
@@ -40,6 +41,14 @@ from numba_scfg.core.datastructures.block_names import (
 )
 
 
+# Patterns of the names handed out by the NameGenerator.
+_GENERATED_NAME_PATTERNS = (
+    re.compile(r"^(?P<kind>.+)_block_(?P<idx>[0-9]+)$"),
+    re.compile(r"^(?P<kind>.+)_region_(?P<idx>[0-9]+)$"),
+    re.compile(r"^__scfg_(?P<kind>.+)_var_(?P<idx>[0-9]+)__$"),
+)
+
+
 @dataclass(frozen=True)
 class NameGenerator:
     """Unique Name Generator.
@@ -55,6 +64,23 @@ class NameGenerator:
     """
 
     kinds: dict[str, int] = field(default_factory=dict)
+
+    def reserve(self, name: str) -> None:
+        """Make sure the given, already used, name is never generated.
+
+        If the name has the form of a generated name, the index of its kind
+        is advanced past the index found in the name.
+
+        Parameters
+        ----------
+        name: str
+            A name that is already in use.
+        """
+        for pattern in _GENERATED_NAME_PATTERNS:
+            match = pattern.match(name)
+            if match:
+                kind, idx = match.group("kind"), int(match.group("idx"))
+                self.kinds[kind] = max(self.kinds.get(kind, 0), idx + 1)
 
     def new_block_name(self, kind: str) -> str:
         """Generate a new unique name for a block of the specified kind.
@@ -175,6 +201,15 @@ class SCFG(Sized):
     region: RegionBlock = field(init=False, compare=False)
 
     def __post_init__(self) -> None:
+        # Names that are already used by the given blocks must not be handed
+        # out again.
+        for block_name, block in self.graph.items():
+            self.name_gen.reserve(block_name)
+            if isinstance(block, SyntheticBranch):
+                self.name_gen.reserve(block.variable)
+            elif isinstance(block, SyntheticAssignment):
+                for variable in block.variable_assignment:
+                    self.name_gen.reserve(variable)
         name = self.name_gen.new_region_name("meta")
         new_region = RegionBlock(
             name=name,
@@ -1030,6 +1065,14 @@ class SCFGIO:
         assert len(outer_graph) > 0
 
         name_gen = NameGenerator()
+        # The names of the blocks and control variables that are read must
+        # not be generated again when the graph is transformed further.
+        for key, block in graph_dict["blocks"].items():
+            name_gen.reserve(key)
+            if "variable" in block:
+                name_gen.reserve(block["variable"])
+            for variable in block.get("variable_assignment", {}):
+                name_gen.reserve(variable)
         scfg = SCFGIO.make_scfg(
             graph_dict, outer_graph, block_ref_dict, name_gen
         )
